@@ -69,7 +69,7 @@ func thoroughExtras(p *Prog, c *Check) {
 	}
 	results := make([]mutantResult, len(jobs))
 	var wg sync.WaitGroup
-	sem := make(chan struct{}, 6)
+	sem := make(chan struct{}, 10)
 	for i, j := range jobs {
 		wg.Add(1)
 		go func(i int, j job) {
@@ -136,6 +136,7 @@ func thoroughExtras(p *Prog, c *Check) {
 	c.extra["mutants_applied"] = applied
 	c.extra["mutants_detected"] = detected
 	c.extra["mutants"] = results
+	refactorSelfTest(p, c, self)
 	if bceScopes[c.Prop] {
 		bceCrossRef(p, c)
 	}
@@ -243,4 +244,79 @@ func sourceLine(file string, ln int) string {
 		return lines[ln-1]
 	}
 	return "["
+}
+
+// refactorSelfTest: the negative half of the self-test. Every behaviour-preserving refactoring of
+// the corpus (renames, extracted helpers, loop-style changes; written by independent authors, each
+// verified to build and pass the repository's tests) is applied to a scratch copy; the check must
+// not report a violation there. UNDECIDED is tolerated (a restructuring can move a rule's subject
+// out of reach) and listed.
+func refactorSelfTest(p *Prog, c *Check, self string) {
+	pats, _ := filepath.Glob(filepath.Join(verifDir(), "refactors", "*.diff"))
+	sort.Strings(pats)
+	type res struct {
+		Name    string `json:"name"`
+		Applied bool   `json:"applied"`
+		Exit    int    `json:"exit"`
+		Alarm   string `json:"alarm,omitempty"`
+	}
+	results := make([]res, len(pats))
+	var wg sync.WaitGroup
+	sem := make(chan struct{}, 10)
+	for i, pt := range pats {
+		wg.Add(1)
+		go func(i int, pt string) {
+			defer wg.Done()
+			sem <- struct{}{}
+			defer func() { <-sem }()
+			r := res{Name: strings.TrimSuffix(filepath.Base(pt), ".diff")}
+			tmp, err := os.MkdirTemp("", "shcheck-ref-")
+			if err != nil {
+				results[i] = r
+				return
+			}
+			defer os.RemoveAll(tmp)
+			dst := filepath.Join(tmp, "repo")
+			if _, err := exec.Command("rsync", "-a", "--exclude", ".git", p.Root+"/", dst+"/").CombinedOutput(); err != nil {
+				results[i] = r
+				return
+			}
+			cmd := exec.Command("patch", "-p1", "-s", "--no-backup-if-mismatch", "-i", pt)
+			cmd.Dir = dst
+			if err := cmd.Run(); err != nil {
+				results[i] = r
+				return
+			}
+			r.Applied = true
+			run := exec.Command(self, c.Prop)
+			run.Env = append(os.Environ(), "VERIF_REPO="+dst, "VERIF_OUT="+filepath.Join(tmp, "out"), "VERIF_TIER=quick")
+			out, _ := run.CombinedOutput()
+			r.Exit = run.ProcessState.ExitCode()
+			if m := regexp.MustCompile(`VIOLATION[^\n]*?rule=(\S+)`).FindStringSubmatch(string(out)); m != nil {
+				r.Alarm = m[1]
+			}
+			results[i] = r
+		}(i, pt)
+	}
+	wg.Wait()
+	applied, clean, undecided := 0, 0, 0
+	for _, r := range results {
+		if !r.Applied {
+			continue
+		}
+		applied++
+		switch {
+		case r.Exit == 0:
+			clean++
+		case r.Alarm != "" || r.Exit == 1:
+			c.Undecided("thorough self-test: false alarm (%s) on the behaviour-preserving refactoring %s", r.Alarm, r.Name)
+		default:
+			undecided++
+			c.Info("thorough: refactoring %s moves a rule's subject out of reach (UNDECIDED there, no alarm)", r.Name)
+		}
+	}
+	c.extra["refactorings_applied"] = applied
+	c.extra["refactorings_clean"] = clean
+	c.extra["refactorings_undecided"] = undecided
+	c.extra["refactorings"] = results
 }
